@@ -967,7 +967,16 @@ namespace sim
       c.expect = "reject";
     else if (!no_expectation && !why.empty() && c.alloc_fail == 0)
       c.expect = "reject";
-    c.note = open_fails ? "open-fail" : (why.empty() ? "valid" : why);
+    // delivery in pieces (short reads, an interrupted read) is not damage: an intact buildable document
+    // has to build exactly as when it arrives in one piece
+    bool delivery_only = !c.faults.empty();
+    for (const auto &f : c.faults)
+      if (f.kind != simfs::F_SHORT_READ && f.kind != simfs::F_EINTR)
+        delivery_only = false;
+    const bool base_is_refused = base.content.find("\"continuous\"") != std::string::npos;
+    if (delivery_only && applied == 0 && bytes == base.content && why.empty() && !base_is_refused && c.alloc_fail == 0)
+      c.expect = "accept";
+    c.note = open_fails ? "open-fail" : (why.empty() ? (c.expect == "accept" ? "piecewise-delivery" : "valid") : why);
     (void) stored_corruption_only;
     (void) label;
     s.ops.push_back(c);
